@@ -151,6 +151,10 @@ class C03(object):
         except ConvergenceError as e:
             return 'ConvergenceError', str(e)[:120]
         except Exception as e:
+            if 'No convergence in initial equilibrium' in str(e):
+                # a period of the steady-state search ran out of sweeps (the search copy has its own cap of 1000): the same kind of
+                # outcome as a ConvergenceError of the main run, reported by the library as a plain ValueError
+                return 'ConvergenceError', str(e)[:120]
             return type(e).__name__, str(e)[:200]
         return 'ok', dict(s.TimeSeries)
 
